@@ -2,7 +2,11 @@
  *
  * ops (one observation line per op; Driver/C17.lean answers the same script):
  *   screen W H F            F: 8m (colour-mapped 8 bpp) | 8 | 16 | 24 | 32   -> ok
- *   client I NFS            connect+handshake, SetEncodings [Raw (+NewFBSize if NFS=1)]  -> ok
+ *   client I NFS [ENC]      connect+handshake, SetEncodings [ENC (+NewFBSize if NFS=1)], ENC: raw (default) |
+ *                           corre | zlib | ultra (all decoded here; the number of rectangles announced in
+ *                           every FramebufferUpdate header must be the number that follows)        -> ok
+ *   newfb W H SEED          rfbNewFramebuffer: a new buffer of W x H (same pixel format) with pseudo-random
+ *                           contents replaces the framebuffer (not on colour-mapped screens)       -> ok
  *   scale I V N             V: u (rfbSetScale, type 8) | p (PalmVNC, type 0xF), N 0..255
  *                           -> told I u W H | told I p DW DH BW BH | told I none | closed I
  *   geom                    -> geom W0xH0:ref W1xH1:ref ...  (screen first, then scaledScreenNext chain)
@@ -42,6 +46,8 @@
 #include <rfb/rfbregion.h>
 #include <time.h>
 #include <sys/time.h>
+#include <zlib.h>
+#include "minilzo.h"
 
 /* virtual clock: the library's gettimeofday() is real time plus an offset the harness advances
    (deterministic flush of coalesced pointer motion) */
@@ -75,6 +81,8 @@ typedef struct {
   int gotnfs, nfsw, nfsh;
   int bad;               /* oracle failures seen while decoding */
   char badmsg[200];
+  int enc;               /* preferred encoding asked for: 0 raw, 4 CoRRE, 6 Zlib, 9 Ultra */
+  z_stream zs; int zinit;
 } hcl;
 static hcl cls[MAXC];
 static rfbScreenInfoPtr scr;
@@ -135,7 +143,60 @@ static void resize_pic(hcl *h, int w, int ht) {
 static unsigned rd16(const unsigned char *p) { return (p[0] << 8) | p[1]; }
 static unsigned long rd32(const unsigned char *p) { return ((unsigned long)p[0] << 24) | (p[1] << 16) | (p[2] << 8) | p[3]; }
 
-/* parse everything complete in h->c.out; returns 0, or -1 on a malformed / unexpected stream */
+static uint32_t rdpix(const unsigned char *q) {
+  uint32_t v = q[0]; if (BPP >= 2) v |= q[1] << 8; if (BPP >= 3) v |= q[2] << 16; if (BPP == 4) v |= (uint32_t)q[3] << 24;
+  return v;
+}
+static void oracle_fail(hcl *h, const char *fmt, long a, long b) {
+  if (!h->bad) snprintf(h->badmsg, sizeof h->badmsg, fmt, a, b);
+  h->bad++;
+}
+/* payload size of one rectangle; -1: not yet complete, -2: unknown encoding */
+static long rect_payload(const unsigned char *q, size_t avail, unsigned w, unsigned ht, long enc) {
+  if (enc == 0) return (long)w * ht * BPP;
+  if (enc == -223) return 0;
+  if (enc == 4) { if (avail < 4) return -1; return 4 + BPP + (long)rd32(q) * (BPP + 4); }
+  if (enc == 6 || enc == 9) { if (avail < 4) return -1; return 4 + (long)rd32(q); }
+  return -2;
+}
+/* decode one rectangle (already known to be complete and inside the picture) */
+static void decode_rect(hcl *h, const unsigned char *q, unsigned x, unsigned y, unsigned w, unsigned ht, long enc) {
+  unsigned xx, yy;
+  if (enc == 0) {
+    for (yy = 0; yy < ht; yy++) for (xx = 0; xx < w; xx++) { h->pic[(size_t)(y + yy) * h->pw + x + xx] = rdpix(q); q += BPP; }
+  } else if (enc == 4) {                       /* CoRRE: background + subrectangles with 8-bit geometry */
+    unsigned long ns = rd32(q), k; uint32_t bg = rdpix(q + 4);
+    q += 4 + BPP;
+    for (yy = 0; yy < ht; yy++) for (xx = 0; xx < w; xx++) h->pic[(size_t)(y + yy) * h->pw + x + xx] = bg;
+    for (k = 0; k < ns; k++) {
+      uint32_t v = rdpix(q); unsigned sx = q[BPP], sy = q[BPP + 1], sw = q[BPP + 2], sh = q[BPP + 3];
+      q += BPP + 4;
+      if (sx + sw > w || sy + sh > ht) { oracle_fail(h, "CoRRE subrectangle outside its rectangle (%ld,%ld)", sx, sy); continue; }
+      for (yy = 0; yy < sh; yy++) for (xx = 0; xx < sw; xx++) h->pic[(size_t)(y + sy + yy) * h->pw + x + sx + xx] = v;
+    }
+  } else {                                     /* Zlib (persistent stream) / Ultra (LZO, per rectangle) */
+    unsigned long len = rd32(q); size_t raw = (size_t)w * ht * BPP;
+    unsigned char *tmp = (unsigned char *)malloc(raw ? raw : 1); const unsigned char *t = tmp; int ok = 1;
+    if (enc == 6) {
+      int rc;
+      if (!h->zinit) { memset(&h->zs, 0, sizeof h->zs); inflateInit(&h->zs); h->zinit = 1; }
+      h->zs.next_in = (Bytef *)(q + 4); h->zs.avail_in = (uInt)len; h->zs.next_out = tmp; h->zs.avail_out = (uInt)raw;
+      rc = inflate(&h->zs, Z_SYNC_FLUSH);
+      if ((rc != Z_OK && rc != Z_STREAM_END && rc != Z_BUF_ERROR) || h->zs.avail_out != 0 || h->zs.avail_in != 0) {
+        oracle_fail(h, "zlib rectangle does not inflate to w*h pixels (rc %ld, %ld bytes missing)", rc, h->zs.avail_out); ok = 0; }
+    } else {
+      lzo_uint out = raw; int rc = lzo1x_decompress_safe(q + 4, len, tmp, &out, NULL);
+      if (rc != LZO_E_OK || out != raw) { oracle_fail(h, "ultra rectangle does not decompress to w*h pixels (rc %ld, %ld bytes)", rc, (long)out); ok = 0; }
+    }
+    if (ok) for (yy = 0; yy < ht; yy++) for (xx = 0; xx < w; xx++) { h->pic[(size_t)(y + yy) * h->pw + x + xx] = rdpix(t); t += BPP; }
+    free(tmp);
+  }
+}
+
+/* parse everything complete in h->c.out; returns 0 (possibly leaving an incomplete message), or -1 on
+   a malformed / unexpected stream.  Exactly the number of rectangles announced in the header of a
+   FramebufferUpdate is consumed: a server that sends more (or fewer) leaves the stream out of step,
+   which shows up as an unknown message / encoding or as stray bytes when the server is idle. */
 static int parse(hcl *h) {
   vh_buf *b = &h->c.out;
   for (;;) {
@@ -161,39 +222,37 @@ static int parse(hcl *h) {
       size_t off = 4; unsigned nr, i;
       if (n < 4) return 0;
       nr = rd16(p + 2);
+      /* (the padding byte is not initialised by the server: not checked) */
       /* first pass: completeness */
-      { size_t o = 4; int cw = h->pw, chh = h->ph;
+      { size_t o = 4;
         for (i = 0; i < nr; i++) {
-          unsigned w, ht; long enc;
+          unsigned w, ht; long enc, sz;
           if (n < o + 12) return 0;
           w = rd16(p + o + 4); ht = rd16(p + o + 6); enc = (long)(int32_t)rd32(p + o + 8); o += 12;
-          if (enc == 0) { size_t sz = (size_t)w * ht * BPP; if (n < o + sz) return 0; o += sz; }
-          else if (enc == -223) { cw = w; chh = ht; }
-          else { snprintf(h->badmsg, sizeof h->badmsg, "unexpected encoding %ld", enc); h->bad++; return -1; }
+          sz = rect_payload(p + o, n - o, w, ht, enc);
+          if (sz == -1) return 0;
+          if (sz == -2 || (enc != 0 && enc != -223 && enc != h->enc)) {
+            oracle_fail(h, "unexpected encoding %ld in rectangle %ld: stream out of step or not negotiated", enc, (long)i); return -1; }
+          if (n < o + (size_t)sz) return 0;
+          o += (size_t)sz;
         }
-        (void)cw; (void)chh;
       }
       for (i = 0; i < nr; i++) {
         unsigned x = rd16(p + off), y = rd16(p + off + 2), w = rd16(p + off + 4), ht = rd16(p + off + 6);
-        long enc = (long)(int32_t)rd32(p + off + 8);
+        long enc = (long)(int32_t)rd32(p + off + 8), sz;
         off += 12;
+        sz = rect_payload(p + off, n - off, w, ht, enc);
         if (enc == -223) { h->gotnfs = 1; h->nfsw = w; h->nfsh = ht; resize_pic(h, w, ht); continue; }
         if (h->nrect < MAXR) { int *r = h->rect[h->nrect++]; r[0] = x; r[1] = y; r[2] = w; r[3] = ht; }
         if (w == 0 || ht == 0 || (int)(x + w) > h->pw || (int)(y + ht) > h->ph) {
           if (!h->bad) snprintf(h->badmsg, sizeof h->badmsg, "rect %u,%u,%u,%u not a non-empty rectangle inside told size %dx%d", x, y, w, ht, h->pw, h->ph);
           h->bad++;
-        } else {
-          unsigned yy, xx; const unsigned char *q = p + off;
-          for (yy = 0; yy < ht; yy++) for (xx = 0; xx < w; xx++) {
-            uint32_t v = q[0]; if (BPP >= 2) v |= q[1] << 8; if (BPP >= 3) v |= q[2] << 16; if (BPP == 4) v |= (uint32_t)q[3] << 24;
-            h->pic[(size_t)(y + yy) * h->pw + x + xx] = v; q += BPP;
-          }
-        }
-        off += (size_t)w * ht * BPP;
+        } else decode_rect(h, p + off, x, y, w, ht, enc);
+        off += (size_t)sz;
       }
       vh_buf_consume(b, off);
     } else {
-      snprintf(h->badmsg, sizeof h->badmsg, "unexpected server message type %u", p[0]); h->bad++;
+      oracle_fail(h, "unexpected server message type %ld: stream out of step (%ld bytes left)", p[0], (long)n);
       return -1;
     }
   }
@@ -203,7 +262,12 @@ static void pump_all(void) {
   vh_conn *arr[MAXC]; int i, n = 0;
   for (i = 0; i < MAXC; i++) if (cls[i].used && cls[i].live) arr[n++] = &cls[i].c;
   vh_pump(scr, arr, n);
-  for (i = 0; i < MAXC; i++) if (cls[i].used && cls[i].live) parse(&cls[i]);
+  for (i = 0; i < MAXC; i++) if (cls[i].used && cls[i].live) {
+    hcl *h = &cls[i];
+    if (parse(h) == 0 && h->c.out.n > 0)      /* the server is idle: nothing more will arrive */
+      oracle_fail(h, "incomplete message (%ld bytes, type %ld) while the server is idle: fewer rectangles sent than announced or stream out of step", (long)h->c.out.n, h->c.out.p[0]);
+    if (h->bad && h->c.out.n > 0) vh_buf_reset(&h->c.out);   /* reported once; resynchronise */
+  }
 }
 static void begin_op(void) {
   int i; for (i = 0; i < MAXC; i++) { cls[i].nrect = cls[i].nhook = 0; cls[i].told = 0; cls[i].gotnfs = 0; }
@@ -244,6 +308,8 @@ int main(void) {
     int n = vh_split(line, tok, 16);
     fflush(stdout);
     if (n == 0 || tok[0][0] == '#') continue;
+    { int i; for (i = 0; i < MAXC; i++) if (cls[i].used && cls[i].bad) {   /* found while another op pumped */
+        printf("ORACLE client %d: %s | ", i, cls[i].badmsg); cls[i].bad = 0; } }
     begin_op();
     if (!strcmp(tok[0], "screen") && n == 4 && !scr) {
       SW = atoi(tok[1]); SH = atoi(tok[2]);
@@ -263,17 +329,22 @@ int main(void) {
       }
       puts("ok");
     } else if (!scr) { puts("bad-op");
-    } else if (!strcmp(tok[0], "client") && n == 3) {
-      int i = atoi(tok[1]); hcl *h; unsigned char m[16]; int k = 0, ne;
+    } else if (!strcmp(tok[0], "client") && (n == 3 || n == 4)) {
+      int i = atoi(tok[1]); hcl *h; unsigned char m[20]; int k = 0, ne, enc = 0;
+      if (n == 4) {
+        if (!strcmp(tok[3], "raw")) enc = 0; else if (!strcmp(tok[3], "corre")) enc = 4;
+        else if (!strcmp(tok[3], "zlib")) enc = 6; else if (!strcmp(tok[3], "ultra")) enc = 9;
+        else { puts("bad-op"); continue; }
+      }
       if (i < 0 || i >= MAXC || cls[i].used) { puts("bad-op"); continue; }
-      h = &cls[i]; memset(h, 0, sizeof *h); h->used = 1; h->nfs = atoi(tok[2]) ? 1 : 0;
+      h = &cls[i]; memset(h, 0, sizeof *h); h->used = 1; h->nfs = atoi(tok[2]) ? 1 : 0; h->enc = enc;
       vh_connect_pre(scr, &h->c, "RFB 003.008\n", 12);
       if (!h->c.cl || vh_handshake_none(scr, &h->c, 1) != 0) { puts("hs-failed"); continue; }
       h->live = 1;
       /* ServerInit consumed by vh_handshake_none (out reset). SetEncodings */
       ne = h->nfs ? 2 : 1;
       m[k++] = 2; m[k++] = 0; m[k++] = 0; m[k++] = (unsigned char)ne;
-      m[k++] = 0; m[k++] = 0; m[k++] = 0; m[k++] = 0;                       /* Raw */
+      m[k++] = 0; m[k++] = 0; m[k++] = 0; m[k++] = (unsigned char)enc;
       if (h->nfs) { m[k++] = 0xFF; m[k++] = 0xFF; m[k++] = 0xFF; m[k++] = 0x21; } /* NewFBSize -223 */
       vh_send(&h->c, m, k);
       resize_pic(h, SW, SH);
@@ -304,6 +375,18 @@ int main(void) {
       if (!is_live(i)) { puts("bad-op"); continue; }
       printf("cl %d %dx%d%s\n", i, cls[i].c.cl->scaledScreen->width, cls[i].c.cl->scaledScreen->height,
              cls[i].c.cl->scaledScreen == scr ? " self" : "");
+    } else if (!strcmp(tok[0], "newfb") && n == 4) {
+      int w = atoi(tok[1]), ht = atoi(tok[2]), xx, yy; char *nfb, *old = scr->frameBuffer;
+      uint32_t mask = BPP == 4 ? 0xFFFFFFFFu : BPP == 3 ? 0xFFFFFFu : BPP == 2 ? 0xFFFFu : 0xFFu;
+      if (MAPPED || w < 1 || ht < 1 || w > 4096 || ht > 4096) { puts("bad-op"); continue; }
+      nfb = (char *)calloc((size_t)w * ht, BPP);
+      vh_srand((uint64_t)strtoull(tok[3], NULL, 10));
+      for (yy = 0; yy < ht; yy++) for (xx = 0; xx < w; xx++)
+        putpix(nfb, w * BPP, xx, yy, (uint32_t)(vh_rand() >> 16) & mask);
+      rfbNewFramebuffer(scr, nfb, w, ht, BPP == 2 ? 5 : 8, BPP == 1 ? 1 : 3, BPP);
+      free(old);
+      SW = w; SH = ht;
+      puts("ok");
     } else if (!strcmp(tok[0], "draw") && n == 6) {
       int x = atoi(tok[1]), y = atoi(tok[2]), w = atoi(tok[3]), ht = atoi(tok[4]), xx, yy;
       uint32_t mask = BPP == 4 ? 0xFFFFFFFFu : BPP == 3 ? 0xFFFFFFu : BPP == 2 ? 0xFFFFu : 0xFFu;
@@ -330,7 +413,7 @@ int main(void) {
       pump_all();
       printf(quiet ? "updq %d" : "upd %d", i);
       if (h->gotnfs) printf(" nfs=%dx%d", h->nfsw, h->nfsh);
-      if (!quiet) {
+      if (!quiet && h->enc == 0) {
         printf(" %d", h->nrect);
         for (k = 0; k < h->nrect; k++) {
           if (k < h->nhook) printf(" %d,%d,%d,%d>", h->hook[k][0], h->hook[k][1], h->hook[k][2], h->hook[k][3]);
@@ -338,6 +421,21 @@ int main(void) {
           printf("%d,%d,%d,%d", h->rect[k][0], h->rect[k][1], h->rect[k][2], h->rect[k][3]);
         }
         if (h->nhook != h->nrect) printf(" hook=%d", h->nhook);
+      } else if (!quiet) {
+        /* splitting encodings: the tiles sent for one update rectangle must partition one rectangle,
+           which is printed in the place of the single Raw rectangle */
+        printf(" %d", h->nhook);
+        if (h->nhook == 1 && h->nrect > 0) {
+          int x1 = 1 << 30, y1 = 1 << 30, x2 = -1, y2 = -1; long area = 0;
+          for (k = 0; k < h->nrect; k++) {
+            int *r = h->rect[k];
+            if (r[0] < x1) x1 = r[0]; if (r[1] < y1) y1 = r[1];
+            if (r[0] + r[2] > x2) x2 = r[0] + r[2]; if (r[1] + r[3] > y2) y2 = r[1] + r[3];
+            area += (long)r[2] * r[3];
+          }
+          printf(" %d,%d,%d,%d>%d,%d,%d,%d", h->hook[0][0], h->hook[0][1], h->hook[0][2], h->hook[0][3], x1, y1, x2 - x1, y2 - y1);
+          if (area != (long)(x2 - x1) * (y2 - y1)) printf(" ORACLE the %d rectangles sent do not partition their bounding box", h->nrect);
+        } else if (h->nhook != 0 || h->nrect != 0) printf(" tiles=%d", h->nrect);
       }
       if (h->bad) { printf(" ORACLE %s", h->badmsg); h->bad = 0; }
       if (!is_live(i)) printf(" closed");
@@ -484,5 +582,6 @@ int main(void) {
     } else puts("bad-op");
     fflush(stdout);
   }
+  { int i; for (i = 0; i < MAXC; i++) if (cls[i].used && cls[i].bad) printf("ORACLE client %d: %s\n", i, cls[i].badmsg); }
   return 0;
 }
